@@ -12,7 +12,7 @@ PROP = "C05"
 FAMILIES = ["vip", "totp", "u2f", "botp", "cli", "okta"]
 NEGS = {"PollIgnoresOwner": ["vip", "cli"], "UpgradeIgnoresActor": ["botp", "vip", "cli"], "TotpNextStepReplay": ["totp"],
         "NoExpiryCheck": ["u2f"]}
-BOUND = {"vip", "totp", "u2f", "botp", "cli"}   # okta is specified and model-checked; its handlers are not driven yet
+BOUND = {"vip", "totp", "u2f", "botp", "cli", "okta"}
 
 
 def _c(slot, cert="none"):
@@ -31,6 +31,9 @@ HAPPY = [
     (["cli", "vip"], [("Login", {"slot": "s1", "user": "alice"}), ("CliShow", {"cred": _c("s1")}),
                       ("CliSend", {"cred": _c("s1"), "owner": "alice", "to": "s2"})]),
     (["vip", "cli"], [("Login", {"slot": "s1", "user": "alice"}), ("VipOTP", {"cred": _c("s1", "alice"), "owner": "alice"})]),
+    (["okta", "vip"], [("Login", {"slot": "s1", "user": "alice"}), ("OktaOTP", {"cred": _c("s1"), "owner": "alice"})]),
+    (["okta", "vip"], [("Login", {"slot": "s2", "user": "bob"}), ("OktaStart", {"cred": _c("s2")}), ("OktaApprove", {"user": "bob"}),
+                       ("OktaPoll", {"cred": _c("s2")})]),
 ]
 
 
@@ -91,7 +94,8 @@ def run(tier, seed, work, replay):
     n = 150 if tier == "quick" else 1500
     depth = 18 if tier == "quick" else 25
     traces = happy_traces() + attacks + simulate(work, "Gen_KMSession_f1.cfg", n, depth, seed, ["vip", "totp", "u2f", "cli"]) \
-        + simulate(work, "Gen_KMSession_f2.cfg", n // 2, depth, seed + 1, ["botp", "vip", "cli"])
+        + simulate(work, "Gen_KMSession_f2.cfg", n // 2, depth, seed + 1, ["botp", "vip", "cli"]) \
+        + simulate(work, "Gen_KMSession_f3.cfg", n // 2, depth, seed + 2, ["okta"])
     # refinement below the specification's grain: a certificate credential is either a keymaster user certificate or an
     # IP-restricted (role requesting) certificate of the same principal presented from inside its netblock; the
     # specification treats both as "the certificate's user is the actor".  Every behaviour with a certificate step is
@@ -132,6 +136,14 @@ def run(tier, seed, work, replay):
     cov["distinct_nontrivial"] = len({(e["ev"], json.dumps(e["args"], sort_keys=True), e["out"]["class"],
                                        json.dumps(e["out"]["set"], sort_keys=True)) for e in evs if e["ev"] not in ("Reset", "Tick")})
     cov["upgrades_granted"] = sum(1 for e in evs if e["out"]["set"]["u"] != "none" and e["ev"] not in ("Login", "Reset"))
+    ga = {}
+    for e in evs:
+        if e["ev"] not in ("Login", "Reset") and e["out"]["set"]["u"] != "none":
+            ga[e["ev"]] = ga.get(e["ev"], 0) + 1
+    cov["upgrades_granted_by_action"] = ga
+    dead = [a for a in ("VipOTP", "PushPoll", "Totp", "U2FFinish", "BotpUse", "CliSend", "OktaPoll", "OktaOTP") if not ga.get(a)]
+    if dead:
+        raise E.Inconclusive("actions never granted in any behaviour (dead driver): %s" % dead)
     cov["rule"] = ("behaviours = TLC simulation of the request generator (2 of 3 steps granted, the third any attempt incl. "
                    "refused cross-user / replay / expired ones) + the counterexamples of the four as-built negative controls; "
                    "non-trivial = distinct (action, arguments, response class, cookie issued)")
